@@ -71,7 +71,41 @@ func firstColumnLine(text string) (string, bool) {
 	return lines[4][4:], true
 }
 
+// inList / inListAlias (flags -inlist, -inlist-alias): the source is a parenthesised value list; it is explained as the
+// right operand of IN (`SELECT x IN <src>` / `SELECT x IN <src> AS hit`) and the line reported is the one of that operand.
+var inList, inListAlias bool
+
+func explainIn(src string) (res string) {
+	defer func() {
+		if r := recover(); r != nil {
+			res = "PANIC\t-"
+		}
+	}()
+	sql := "SELECT x IN " + src
+	if inListAlias {
+		sql += " AS hit"
+	}
+	stmts, err := parser.Parse(context.Background(), strings.NewReader(sql))
+	if err != nil || len(stmts) != 1 {
+		return "ERR\t-"
+	}
+	lines := strings.Split(strings.TrimSuffix(parser.Explain(stmts[0]), "\n"), "\n")
+	for i, l := range lines {
+		if strings.TrimLeft(l, " ") == "Identifier x" && i+1 < len(lines) {
+			op := strings.TrimLeft(lines[i+1], " ")
+			if strings.HasPrefix(op, "Literal ") {
+				return "L\t" + hexOrDash([]byte(op[len("Literal "):]))
+			}
+			return "NOTLIT\t" + hexOrDash([]byte(op))
+		}
+	}
+	return "ERR\t-"
+}
+
 func explainOne(src string) (res string) {
+	if inList || inListAlias {
+		return explainIn(src)
+	}
 	defer func() {
 		if r := recover(); r != nil {
 			res = "PANIC\t-"
@@ -189,6 +223,8 @@ func tokensOf(src string) string {
 func main() {
 	floats := flag.Bool("floats", false, "append the strconv oracle of every NUMBER token")
 	tokens := flag.Bool("tokens", false, "print the token stream of the source text instead")
+	flag.BoolVar(&inList, "inlist", false, "explain the source as the right operand of IN")
+	flag.BoolVar(&inListAlias, "inlist-alias", false, "the same, with an alias on the IN expression")
 	flag.Parse()
 	in := bufio.NewReaderSize(os.Stdin, 1<<20)
 	out := bufio.NewWriterSize(os.Stdout, 1<<20)
